@@ -8,6 +8,7 @@ import (
 	"strconv"
 	"strings"
 	"sync"
+	"syscall"
 	"time"
 
 	"github.com/samaritan-proxy/samaritan/host"
@@ -24,14 +25,14 @@ import (
 // redirects with MOVED / ASK exactly as a Redis node does (including the one-shot ASKING flag
 // per connection).  There is no redis-server in this sandbox; this stands in for it.
 type FakeCluster struct {
-	mu    sync.Mutex
-	Nodes []*FakeNode
-	owner [16384]int       // slot -> node index
-	migr  map[int][2]int   // slot -> {source, target} while it is being migrated
-	repl  map[int]int      // replica node index -> its master's index (listed in CLUSTER NODES)
-	Log   []string         // every command a node executed: "<node>:<cmd> <key>[ asked]"
-	Redir int              // MOVED / ASK replies sent so far
-	belief map[[2]int]int  // {node, slot} -> the node it wrongly believes to own the slot (a lagging view)
+	mu     sync.Mutex
+	Nodes  []*FakeNode
+	owner  [16384]int            // slot -> node index
+	migr   map[int][2]int        // slot -> {source, target} while it is being migrated
+	repl   map[int]int           // replica node index -> its master's index (listed in CLUSTER NODES)
+	Log    []string              // every command a node executed: "<node>:<cmd> <key>[ asked]"
+	Redir  int                   // MOVED / ASK replies sent so far
+	belief map[[2]int]int        // {node, slot} -> the node it wrongly believes to own the slot (a lagging view)
 	delay  map[int]time.Duration // node -> time it takes to answer a command
 }
 
@@ -43,6 +44,9 @@ type FakeNode struct {
 	store map[string][]byte
 	conns map[net.Conn]struct{}
 	Up    bool
+	// a node that hangs: a socket with a minimal backlog nobody accepts from, and the connections that fill it
+	hangFd    int
+	hangConns []net.Conn
 }
 
 // SlotOf is the cluster's key → slot function, written from the Redis Cluster specification and independent of the
@@ -153,7 +157,11 @@ func (c *FakeCluster) Finalise(slot int) {
 }
 
 // Believe makes node n answer MOVED <m> for a slot it does not own (its view of the layout lags).
-func (c *FakeCluster) Believe(n, slot, m int) { c.mu.Lock(); c.belief[[2]int{n, slot}] = m; c.mu.Unlock() }
+func (c *FakeCluster) Believe(n, slot, m int) {
+	c.mu.Lock()
+	c.belief[[2]int{n, slot}] = m
+	c.mu.Unlock()
+}
 
 // Delay makes node n take d to answer each command.
 func (c *FakeCluster) Delay(n int, d time.Duration) { c.mu.Lock(); c.delay[n] = d; c.mu.Unlock() }
@@ -238,6 +246,13 @@ func (n *FakeNode) serve(ln net.Listener) {
 // Down closes the listener and every connection of the node.
 func (n *FakeNode) Down() {
 	n.c.mu.Lock()
+	if n.hangFd > 0 {
+		for _, c := range n.hangConns {
+			c.Close()
+		}
+		syscall.Close(n.hangFd)
+		n.hangFd, n.hangConns = 0, nil
+	}
 	n.Up = false
 	ln := n.ln
 	n.ln = nil
@@ -253,6 +268,47 @@ func (n *FakeNode) Down() {
 		}
 		c.Close()
 	}
+}
+
+// Hang takes the node away in the nasty way: its connections are dropped and connects to its address neither succeed nor
+// fail, they time out (a listening socket with a minimal backlog that nobody accepts from, filled up).
+func (n *FakeNode) Hang() error {
+	n.Down()
+	_, ps, err := net.SplitHostPort(n.Addr)
+	if err != nil {
+		return err
+	}
+	port, _ := strconv.Atoi(ps)
+	fd, err := syscall.Socket(syscall.AF_INET, syscall.SOCK_STREAM, 0)
+	if err != nil {
+		return err
+	}
+	syscall.SetsockoptInt(fd, syscall.SOL_SOCKET, syscall.SO_REUSEADDR, 1)
+	for i := 0; i < 50; i++ {
+		if err = syscall.Bind(fd, &syscall.SockaddrInet4{Port: port, Addr: [4]byte{127, 0, 0, 1}}); err == nil {
+			break
+		}
+		time.Sleep(10 * time.Millisecond)
+	}
+	if err == nil {
+		err = syscall.Listen(fd, 0)
+	}
+	if err != nil {
+		syscall.Close(fd)
+		return err
+	}
+	var conns []net.Conn
+	for i := 0; i < 16; i++ {
+		c, err := net.DialTimeout("tcp", n.Addr, 120*time.Millisecond)
+		if err != nil {
+			break
+		}
+		conns = append(conns, c)
+	}
+	n.c.mu.Lock()
+	n.hangFd, n.hangConns = fd, conns
+	n.c.mu.Unlock()
+	return nil
 }
 
 // Reset drops every connection of the node but keeps it listening.
@@ -275,6 +331,13 @@ func (n *FakeNode) UpAgain() error {
 	if n.Up {
 		n.c.mu.Unlock()
 		return nil
+	}
+	if n.hangFd > 0 {
+		for _, c := range n.hangConns {
+			c.Close()
+		}
+		syscall.Close(n.hangFd)
+		n.hangFd, n.hangConns = 0, nil
 	}
 	n.c.mu.Unlock()
 	var ln net.Listener
@@ -543,7 +606,11 @@ func (c *FakeCluster) Dump() string {
 }
 
 // Snapshot returns the redirect counter and the length of the command log.
-func (c *FakeCluster) Snapshot() (int, int) { c.mu.Lock(); defer c.mu.Unlock(); return c.Redir, len(c.Log) }
+func (c *FakeCluster) Snapshot() (int, int) {
+	c.mu.Lock()
+	defer c.mu.Unlock()
+	return c.Redir, len(c.Log)
+}
 
 // LogSince returns the commands executed since position p.
 func (c *FakeCluster) LogSince(p int) []string {
